@@ -256,6 +256,66 @@ def large_case(ctx, idx, rng):
     ctx.close('large.hermitian[probes]', abs(a - np.conj(b)), 1e-10 * scale, 'not Hermitian', detail)
 
 
+def very_long_case(ctx, idx, rng):
+    """Chains of 1000+ sites (Ising through the automaton path, linear fermionic operators): far beyond any recursion depth or per-site cache size.
+    Matrix elements between normalised product states that differ on a few sites only (so that the overlaps do not underflow)."""
+    L = int(rng.choice([1100, 1500]))
+    if idx % 2 == 0:
+        name = 'ising'
+        p = tuple(float(x) for x in rng.choice([-1, 1], size=3) * rng.uniform(0.2, 2.0, size=3))
+        ctx.case(('very-long', name, f'L{L}'), sample={'model': name, 'L': L, 'params': p}, info={'model': name, 'L': L, 'params': p})
+        detail = {'model': name, 'L': L, 'params': p}
+        H = build(name, L, p, None)
+        dd = 2
+        h2 = reference(name, 2, (p[0], 0.0, 0.0), None)
+        h1 = reference(name, 1, (0.0, p[1], p[2]), None)
+    else:
+        name = 'linear-fermionic'
+        coeff = rng.normal(size=L) + 1j * rng.normal(size=L)
+        ftype = str(rng.choice(['c', 'a']))
+        ctx.case(('very-long', name, f'L{L}', ftype), sample={'L': L, 'ftype': ftype}, info={'L': L, 'ftype': ftype, 'coeff': coeff})
+        detail = {'model': name, 'L': L, 'ftype': ftype}
+        H = ptn.linear_fermionic_mpo(coeff, ftype)
+        dd = 2
+    ctx.ok('very-long.nsites', H.nsites == L and H.bond_dims[0] == 1 and H.bond_dims[-1] == 1, f'nsites {H.nsites}', detail)
+    inv = refs.mpo_invariant(H)
+    if not ctx.ok('very-long.block-sparse', inv is None, str(inv), detail):
+        return
+    phi = [rng.normal(size=dd) + 1j * rng.normal(size=dd) for _ in range(L)]
+    phi = [x / np.linalg.norm(x) for x in phi]
+    chi = [x.copy() for x in phi]
+    for i in rng.choice(L, size=6, replace=False):
+        y = chi[int(i)] + 0.5 * (rng.normal(size=dd) + 1j * rng.normal(size=dd))
+        chi[int(i)] = y / np.linalg.norm(y)
+    ov = np.array([np.vdot(phi[i], chi[i]) for i in range(L)])
+    pre = np.concatenate([[1.0], np.cumprod(ov)])
+    suf = np.concatenate([np.cumprod(ov[::-1])[::-1], [1.0]])
+    got = refs.mpo_element([x.reshape(dd, 1, 1) for x in phi], H.A, [x.reshape(dd, 1, 1) for x in chi])
+    if name == 'ising':
+        want = sum(pre[i] * np.vdot(phi[i], h1 @ chi[i]) * suf[i + 1] for i in range(L))
+        want += sum(pre[i] * np.vdot(np.kron(phi[i], phi[i + 1]), h2 @ np.kron(chi[i], chi[i + 1])) * suf[i + 2] for i in range(L - 1))
+        sc = L * max(np.abs(h2).max(), np.abs(h1).max())
+    else:
+        # sum_i coeff_i * (Jordan-Wigner string) (creation / annihilation operator on site i); local matrices and the side of the string are read off
+        # the dense Fock-space reference at L = 1, 2 (refs.fock_annihilators, the oracle of the short-chain workload)
+        A1 = np.asarray(refs.fock_annihilators(1)[0].toarray())
+        a2 = np.asarray(refs.fock_annihilators(2)[0].toarray())
+        Z = np.diag([1.0, -1.0])
+        string_right = np.allclose(a2, np.kron(A1, Z))
+        assert string_right or np.allclose(np.asarray(refs.fock_annihilators(2)[1].toarray()), np.kron(Z, A1))
+        op = A1.T if ftype == 'c' else A1
+        zov = np.array([np.vdot(phi[i], Z @ chi[i]) for i in range(L)])
+        if string_right:
+            left = pre
+            right = np.concatenate([np.cumprod(zov[::-1])[::-1], [1.0]])
+        else:
+            left = np.concatenate([[1.0], np.cumprod(zov)])
+            right = suf
+        want = sum(coeff[i] * left[i] * np.vdot(phi[i], op @ chi[i]) * right[i + 1] for i in range(L))
+        sc = float(np.abs(coeff).sum())
+    ctx.close('very-long.product-state-matrix-element', abs(got - want), 1e-9 * max(sc, 1e-300), f'<phi|H|chi> differs from the sum of local terms at L={L}', detail)
+
+
 def linear_fermionic_case(ctx, idx, rng):
     L = int(rng.integers(1, 8))
     kind = str(rng.choice(['complex', 'real', 'unit', 'sparse']))
@@ -331,6 +391,7 @@ SPEC = {
         Workload('near-equal-parameters', near_equal_case, quick=400, thorough=40000),
         Workload('random', random_case, quick=150, thorough=40000),
         Workload('large', large_case, quick=120, thorough=6000),
+        Workload('very-long', very_long_case, quick=2, thorough=64),
         Workload('linear-fermionic', linear_fermionic_case, quick=200, thorough=32000),
     ],
     'shards': {'quick': 4, 'thorough': 16},
